@@ -11,10 +11,11 @@
 //!
 //! Alphabet of a state s (a function of s only): first `Nothing` is executed on a clone of s
 //! (it never changes the path); its result R gives D = max(num_frames, frames of R), the
-//! observed keys and the widest frame W. Commands: ExpandElement{depth 0..=D+1, key in
-//! observed ∪ {"?"}, disambiguator 0..=2}, SelectNth{depth 0..=D+1, index in idx(W)}, Up,
-//! Nothing, where idx(W) = 0..=W+1 for W <= 6 and {0..=4, W-2, W-1, W, W+1} for wider frames
-//! (observed keys of a wide frame are those at the same representative positions).
+//! observed keys and the widest frame W. Commands: ExpandElement{depth in 0..=D+1 ∪ {usize::MAX},
+//! key in observed ∪ {"?"}, disambiguator in {0,1,2,usize::MAX}}, SelectNth{depth in 0..=D+1 ∪
+//! {usize::MAX}, index in idx(W) ∪ {usize::MAX}}, Up, Nothing, where idx(W) = 0..=W+1 for
+//! W <= 6 and {0..=4, W-2, W-1, W, W+1} for wider frames (observed keys of a wide frame are
+//! those at the same representative positions).
 //!
 //! The post state of EVERY command (Ok or Err: errors can modify the path) is a state.
 use savefile::{IntrospectedElementKey, IntrospectionError, IntrospectionResult, Introspector, IntrospectorNavCommand};
@@ -247,9 +248,13 @@ pub fn alphabet(intro: &Introspector, probe: Option<&IntrospectionResult>) -> Ve
     }
     keys.insert("?".to_string());
     let mut out = vec![];
-    for depth in 0..=d + 1 {
+    let mut depths: Vec<usize> = (0..=d + 1).collect();
+    depths.push(usize::MAX);
+    let mut indices = rep_indices(w);
+    indices.push(usize::MAX);
+    for &depth in &depths {
         for key in &keys {
-            for dis in 0..=2 {
+            for dis in [0, 1, 2, usize::MAX] {
                 out.push(Cmd::Expand {
                     depth,
                     key: key.clone(),
@@ -258,8 +263,8 @@ pub fn alphabet(intro: &Introspector, probe: Option<&IntrospectionResult>) -> Ve
             }
         }
     }
-    for depth in 0..=d + 1 {
-        for index in rep_indices(w) {
+    for &depth in &depths {
+        for &index in &indices {
             out.push(Cmd::Select { depth, index });
         }
     }
